@@ -1,5 +1,7 @@
 package main
 
+import "golang.org/x/tools/go/ssa"
+
 func widthInt(bits string) int64 {
 	switch bits {
 	case "16":
@@ -11,3 +13,6 @@ func widthInt(bits string) int64 {
 	}
 	return 0
 }
+
+// phiBusy guards evInt against φ-nodes that (through a loop's back edge) refer to themselves.
+var phiBusy = map[*ssa.Phi]bool{}
